@@ -68,7 +68,10 @@ fn alpha_for(quick: bool) -> Vec<Op> {
     v.push(wrap(Sgr(vec![vec![Some(38), Some(65285), Some(9)]]), SP7));
     // sequences that end in `m` but are not SGR (a private marker or an intermediate makes
     // them something else, which this terminal does not implement): the pen stays as it is
-    for s in ["\x1b[>4;2m", "\x1b[?4m", "\x1b[=1m", "\x1b[<31m", "\x1b[>m", "\x1b[>4;0m", "\u{9b}?1;31m", "\x1b[1 m", "\x1b[31$m", "\u{9b}0!m"] {
+    let mut foreign: Vec<&str> = vec!["\x1b[>4;2m", "\x1b[?4m", "\x1b[=1m", "\x1b[<31m", "\x1b[>m", "\x1b[>4;0m", "\u{9b}?1;31m", "\x1b[1 m", "\x1b[31$m", "\u{9b}0!m"];
+    // ... and sequences of other terminals that push / pop / save / restore / select things
+    foreign.extend(crate::alphabets::KNOWN_FOREIGN.iter().copied().filter(|s| s.starts_with("\x1b[#") || s.starts_with("\x1b[?7") || s.contains("\"p") || s.contains("\"q")));
+    for s in foreign {
         v.push(Op {
             kind: Kind::Feed,
             cmd: Seq(vec![Inert(s.to_string()), Cr, Text("x".into()), El(None)]),
@@ -368,8 +371,11 @@ fn every_value(ctx: &Ctx, rep: &mut Report) {
             let loaded = vec![vec![Some(1u32)], vec![Some(4)], vec![Some(33)], vec![Some(45)]];
             let alone = vec![vec![Some(v)]];
             let between = vec![vec![Some(3u32)], vec![Some(v)], vec![Some(9)]];
-            for seqs in [vec![alone.clone()], vec![loaded.clone(), alone.clone()], vec![loaded.clone(), between.clone()]] {
-                if (v == 38 || v == 48) && seqs.last().map(|s| s.len()) == Some(3) {
+            // what FOLLOWS an unknown value is not its argument: `v;5;1` is v, blink, bold
+            let before5 = vec![vec![Some(v)], vec![Some(5)], vec![Some(1)]];
+            let before2 = vec![vec![Some(4u32)], vec![Some(v)], vec![Some(2)], vec![Some(9)], vec![Some(3)], vec![Some(7)], vec![Some(31)]];
+            for seqs in [vec![alone.clone()], vec![loaded.clone(), alone.clone()], vec![loaded.clone(), between.clone()], vec![before5.clone()], vec![loaded.clone(), before2.clone()]] {
+                if (v == 38 || v == 48) && seqs.last().map(|s| s.len() >= 3) == Some(true) {
                     continue;
                 }
                 for c1 in [false, true] {
@@ -381,7 +387,7 @@ fn every_value(ctx: &Ctx, rep: &mut Report) {
             None
         })
         .collect();
-    let runs = vals.len() as u64 * 6;
+    let runs = vals.len() as u64 * 10;
     rep.evaluations += runs;
     rep.traces_validated += runs;
     rep.transitions += runs;
